@@ -279,7 +279,7 @@ class _Optimizers(_Algorithm):
         for key in ('weights', 'alpha'):
             if key in method_kws:
                 method_kws[key] = np.pad(
-                    method_kws[key],
+                    _check_optional_array(self._size, method_kws[key], name=key),
                     [0 if side == 'right' else added_window, 0 if side == 'left' else added_window],
                     'constant', constant_values=1
                 )
